@@ -13,7 +13,8 @@ C  direct oracle on the REAL code, metamorphic: index A (one bulk row) vs index 
    opinion, equal outcome (same errors) when the template cannot be instantiated.
    Second stream (harness/c12_mixed.py): templates legal with AND without a data row (`default` / `is defined`),
    one index mixing bulk / single / data-less rows of the same template, the block inserted with and without data
-   in both orders: every flow must send exactly what the template evaluated with ITS row and arguments says
+   in both orders, over data sheets with 0 (header only), 1 or several rows and sheets derived by `filter` operations that
+   keep all / some / none of them (zero rows: zero flows): every flow must send exactly what the template evaluated with ITS row and arguments says
    (computed by the generator, independent of the real code) and equal the same instance generated in a permuted
    index, as explicit single rows in the opposite order, and alone by a fresh parser.
 """
@@ -31,14 +32,14 @@ from ..flows import LogCapture, canon_flow, mem_reader, rename_uuids_by_first_oc
 from ..gen import sheets as G
 
 MANIFEST = dict(
-    text="Proof: Lean theorems over a line-by-line model of parse_all_flows / _parse_flow / map_template_arguments_to_context with the template compiler as an abstract function of (template, flow name, context): bulk_eq_singles (anywhere in an index and after any history a bulk row may be replaced by the single rows naming each data row, in data order: same flows, same order, same error), bulk_names (one flow per data row, in data order, named `<name> - <ID>`, the k-th being the instance of the k-th row), args_positional / args_spec / args_extras_ignored / args_extras_warn / args_trailing_blank / args_doubly_defined / args_missing / args_sheet_unknown (positional binding, default, missing, doubly defined, sheet, extras), no_leak (the flow left under `base - i` is an expression in the index row, the registries and i only, whatever was generated before or around it) and no_leak_frame (it depends on the data sheets only through row i and the sheets its `sheet` arguments name), bulk_order_independent (if no name is defined twice, permuting the index rows gives the same flow per name). In a functional model these are close to definitional — they fix the specification; the weight is on the tie: the REAL code is run on index A (bulk row) / B (one row per ID) / B' (permuted) / one fresh parser per instance, for generated templates (loops over data lists, ranges and `sheet` arguments, include_if on data fields, inserted blocks with arguments, nested fields, all argument kinds, leakage probes incl. templates that mutate their context) and must give the same names, order, canonical JSON (and Lean-checked bisimilar flows) or the same errors; a second stream generates templates that are legal with and without a data row (every variable read through `default` / `is defined`, declared arguments none or defaulted), instantiated in one index in bulk, as single rows and without any data, in both orders, the template inserting a block with data, without, or both: every flow must send exactly the messages the generator computes from its own row and arguments (independent of the real code) and equal the same instance in a permuted index, as explicit rows in the opposite order and generated alone; model mapArgs / parseAllFlows are compared with the real methods on the same inputs.",
+    text="Proof: Lean theorems over a line-by-line model of parse_all_flows / _parse_flow / map_template_arguments_to_context with the template compiler as an abstract function of (template, flow name, context): bulk_eq_singles (anywhere in an index and after any history a bulk row may be replaced by the single rows naming each data row, in data order: same flows, same order, same error), bulk_names (one flow per data row, in data order, named `<name> - <ID>`, the k-th being the instance of the k-th row), bulk_empty_sheet (a bulk row over a sheet holding no row — header only, or a filter that keeps nothing — may be deleted from the index: no flow, no error, the template is not even looked up), args_positional / args_spec / args_extras_ignored / args_extras_warn / args_trailing_blank / args_doubly_defined / args_missing / args_sheet_unknown (positional binding, default, missing, doubly defined, sheet, extras), no_leak (the flow left under `base - i` is an expression in the index row, the registries and i only, whatever was generated before or around it) and no_leak_frame (it depends on the data sheets only through row i and the sheets its `sheet` arguments name), bulk_order_independent (if no name is defined twice, permuting the index rows gives the same flow per name). In a functional model these are close to definitional — they fix the specification; the weight is on the tie: the REAL code is run on index A (bulk row) / B (one row per ID) / B' (permuted) / one fresh parser per instance, for generated data sheets of 0..5 rows (0 = header only), the bulk row running over the sheet itself or over a sheet derived by a `filter` operation that keeps all, some or none of its rows, and generated templates (loops over data lists, ranges and `sheet` arguments, include_if on data fields, inserted blocks with arguments, nested fields, all argument kinds, leakage probes incl. templates that mutate their context) and must give the same names, order, canonical JSON (and Lean-checked bisimilar flows) or the same errors; a second stream generates templates that are legal with and without a data row (every variable read through `default` / `is defined`, declared arguments none or defaulted), instantiated in one index in bulk, as single rows and without any data, in both orders, the template inserting a block with data, without, or both, over a data sheet of 0..4 rows and filtered sheets keeping all / some / none of them (a bulk row over zero rows must add no flow — such a template would compile without a row, so only the list of flows shows it): every flow must send exactly the messages the generator computes from its own row and arguments (independent of the real code) and equal the same instance in a permuted index, as explicit rows in the opposite order and generated alone; model mapArgs / parseAllFlows are compared with the real methods on the same inputs.",
     ref="§5 C12",
     note="Trusts: Lean kernel; harness generators and canonicaliser; Driver JSON codec; that FlowParser is a function of (table, name, context) is NOT proved — it is what the A/B/B'/solo comparison tests on every case. Row IDs are assumed non-blank (hypothesis of bulk_names, negative witness needs_nonblank_ids; known finding F-C12-a: a data row with a blank ID is instantiated as a flow called `<name>` with an empty context). Arguments that are themselves lists are outside the model.",
     technique="Lean 4 proof (structural induction over association-list dictionaries, permutation lemmas) + metamorphic bulk-vs-single check on the real code + model/code differential run",
 )
 
 H = G.HEADERS
-IH = ["type", "sheet_name", "data_sheet", "data_row_id", "new_name", "template_arguments"]
+IH = ["type", "sheet_name", "data_sheet", "data_row_id", "new_name", "template_arguments", "operation"]
 FULL = {"catNames": True, "resultName": True}
 ID_POOL = ["r1", "r2", "row 3", "A-B", "x - y", "7", "é1", "Zed", "q.9"]
 WORDS = ["alpha", "beta", "gamma", "delta"]
@@ -151,7 +152,7 @@ def defs_cell(defs: list[tuple]) -> str:
 
 def gen_case(rng: random.Random, kind: str) -> dict:
     """kind: 'valid' | 'probe' (leakage probes) | 'malformed' (argument / reference faults)"""
-    n = rng.choice([1, 2, 2, 3, 3, 4, 5])
+    n = rng.choice([0, 1, 2, 2, 3, 3, 4, 5])      # 0: a header-only data sheet — zero rows, zero flows
     ids = rng.sample(ID_POOL, n)
     feats = set()
     # ---- data sheet (inferred model)
@@ -184,6 +185,21 @@ def gen_case(rng: random.Random, kind: str) -> dict:
             row["pair.a"] = rng.choice(["pa", "pb"])
             row["pair.b:int"] = str(rng.randint(1, 9))
         data_rows.append(row)
+    # the bulk row may run over a sheet derived from `data` by a `filter` operation keeping all / some / none of its rows
+    # (which rows are kept is computed here, not read off the real code)
+    view = None
+    if rng.random() < 0.35:
+        if use_count and rng.random() < 0.5:
+            k = rng.choice([-1, 0, 1, 3])
+            view = {"expr": f"count > {k}", "ids": [r["ID"] for r in data_rows if int(r["count:int"]) > k]}
+        else:
+            w = rng.choice(WORDS + [r["word"] for r in data_rows] + ["omega"])
+            view = {"expr": f"word=='{w}'", "ids": [r["ID"] for r in data_rows if r["word"] == w]}
+        ids = view["ids"]
+        feats.add("bulk_over_filter_view")
+    if not ids:
+        feats.add("empty_by_filter" if data_rows else "empty_header_only")
+    feats.add("bulk_rows_" + ("0" if not ids else "1" if len(ids) == 1 else "many"))
     others = {
         "other": [{"ID": f"o{k}", "label": f"L{k}"} for k in range(1, rng.randint(1, 3) + 1)],
         "other2": [{"ID": f"p{k}", "label": f"M{k}"} for k in range(1, rng.randint(1, 2) + 1)],
@@ -353,16 +369,18 @@ def gen_case(rng: random.Random, kind: str) -> dict:
     if rng.random() < 0.5:
         main = [
             {"row_id": "m1", "type": "send_message", "from": "start", "message_text": "main"},
-            {"row_id": "m2", "type": "start_new_flow", "from": "m1", "message_text": "T - " + rng.choice(ids)},
+            {"row_id": "m2", "type": "start_new_flow", "from": "m1", "message_text": "T - " + rng.choice(ids)} if ids else
+            {"row_id": "m2", "type": "send_message", "from": "m1", "message_text": "nobody to start"},
         ]
         extra_sheets["main"] = rows_to_csv(H, main)
         (pre_rows if rng.random() < 0.5 else post_rows).append({"type": "create_flow", "sheet_name": "main"})
-        feats.add("main_flow_refers_to_instance")
+        feats.add("main_flow_refers_to_instance" if ids else "main_flow_beside_empty_bulk")
     new_name = rng.choice(["T", "T", ""])
     if "main" in extra_sheets and not new_name:
         new_name = "T"
     head_rows = [{"type": "data_sheet", "sheet_name": "data"}, {"type": "data_sheet", "sheet_name": "other"},
-                 {"type": "data_sheet", "sheet_name": "other2"},
+                 {"type": "data_sheet", "sheet_name": "other2"}] + (
+        [{"type": "data_sheet", "sheet_name": "data", "new_name": "fdata", "operation": "filter|expression;" + view["expr"]}] if view else []) + [
                  {"type": "template_definition", "sheet_name": "tmpl", "template_arguments": defs_cell(defs)},
                  {"type": "template_definition", "sheet_name": "blk", "template_arguments": "bword;;nobody|"}]
     base = {
@@ -373,7 +391,7 @@ def gen_case(rng: random.Random, kind: str) -> dict:
         "blk": rows_to_csv(H, blk),
     }
     base.update(extra_sheets)
-    bulk = {"type": "create_flow", "sheet_name": "tmpl", "data_sheet": "data", "data_row_id": "", "new_name": new_name,
+    bulk = {"type": "create_flow", "sheet_name": "tmpl", "data_sheet": "fdata" if view else "data", "data_row_id": "", "new_name": new_name,
             "template_arguments": args_cell(given)}
     # what the property's own words say the first message is: data field, then each declared argument
     # bound positionally, a blank / absent one taking its default (only when nothing is wrong with the arguments)
@@ -783,7 +801,7 @@ def case_worker(args):
         for f in case["features"]:
             bump("feat_" + f)
         pairs += info["pairs"]
-        keys.append(json.dumps([case["base"], case["bulk"], case["pre"], case["post"]], sort_keys=True))
+        keys.append(json.dumps([case["base"], case["head"], case["bulk"], case["pre"], case["post"]], sort_keys=True))
         if sample is None and status == "ok" and len(case["ids"]) >= 2:
             sample = {"content_index_A": workbook(case, "A")["content_index"], "data": case["base"]["data"],
                       "tmpl": case["base"]["tmpl"], "flows": [f["name"] for f in info["A"].doc["flows"]]}
@@ -963,9 +981,9 @@ def shrink_mixed(case, drv):
     if not cur_p:
         return case, None
     cur = case
-    for key, keep in (("insts", 1), ("trows", 1), ("data", 1)):
+    for key, keep in (("insts", 1), ("trows", 1), ("data", 0), ("views", 0)):
         changed = True
-        while changed and len(cur[key]) > keep:
+        while changed and len(cur.get(key, [])) > keep:
             changed = False
             for k in range(len(cur[key]) - 1, -1, -1):
                 if key == "trows" and cur[key][k]["tag"] == "first":
@@ -973,9 +991,11 @@ def shrink_mixed(case, drv):
                 cand = dict(cur, **{key: cur[key][:k] + cur[key][k + 1:]})
                 if key == "data":
                     gone = cur["data"][k]["ID"]
-                    if any(i["row_id"] == gone and i["sheet"] == "data" for i in cur["insts"]):
+                    if any(i["row_id"] == gone for i in cur["insts"]):
                         continue
                     cand["ids"] = [i for i in cur["ids"] if i != gone]
+                if key == "views" and any(i["sheet"] == cur["views"][k]["name"] for i in cur["insts"]):
+                    continue
                 p = failing(cand)
                 if p:
                     cur, cur_p, changed = cand, p, True
@@ -1085,14 +1105,16 @@ def run(ck: core.Check):
         raise core.Infra("driver not built:\n" + ck.lean.log[-2000:])
     quick = ck.tier == "quick"
     ck.rule = (
-        "a case = one generated workbook (data sheet with inferred model: 1..5 rows, list / int / nested fields; template with loops over a data "
+        "a case = one generated workbook (data sheet with inferred model: 0..5 rows — 0 = header only —, list / int / nested fields; the bulk row over "
+        "the sheet itself or over a sheet derived by a `filter` operation keeping all / some / none of its rows (zero rows: zero flows, no error); template with loops over a data "
         "list, a data range and a `sheet` argument, include_if on data fields, inserted block with arguments, waits, groups; argument definitions "
         "positional / defaulted / required / sheet-typed, arguments given / blank / omitted / extra; optionally a plain flow starting an instance; "
         "leakage probes; argument and reference faults) compiled by the real code as bulk row, as single rows in data order, as single rows "
         "permuted, and one instance per fresh parser; distinct = distinct workbook text. Second stream: a template and a block whose cells read "
         "every variable through `default` / `is defined` (legal with and without a data row; declared arguments none or defaulted), an index of "
         "1..6 rows mixing bulk / single / data-less instances of the template and of the block, the template inserting the block with data, "
-        "without, or both in either order; each flow must send the texts the generator computes from its own row and arguments and equal the "
+        "without, or both in either order; the data sheet holds 0..4 rows and `filter` operations derive sheets keeping all / some / none of "
+        "them, bulk and single rows run over either (a bulk row over zero rows stands for no flow at all); each flow must send the texts the generator computes from its own row and arguments and equal the "
         "same instance in a permuted index, as explicit rows in the opposite order, and alone. "
         "mapArgs tie: generated (definitions, arguments, context)."
     )
@@ -1209,10 +1231,16 @@ def run(ck: core.Check):
             "feat_loop_items", "feat_loop_sheet_arg", "feat_include_if_data", "feat_insert_as_block", "feat_arg_sheet",
             "feat_arg_defaulted", "feat_arg_positional", "feat_arg_extra_blank", "feat_nested_field", "outcome_ok", "outcome_rejected",
             "feat_probe_loop_var", "mapargs_ok", "mapargs_argDoublyDefined", "mapargs_argMissing", "mapargs_sheetNotFound",
-            "mapargs_warn_too_many", "tie_run_agree", "data_rows_1", "data_rows_5"]
+            "mapargs_warn_too_many", "tie_run_agree", "data_rows_1", "data_rows_5",
+            "feat_bulk_rows_0", "feat_bulk_rows_1", "feat_bulk_rows_many", "feat_empty_header_only", "feat_empty_by_filter",
+            "feat_bulk_over_filter_view", "mixed_feat_bulk_rows_0", "mixed_feat_bulk_rows_many",
+            "mixed_feat_empty_header_only", "mixed_feat_empty_by_filter", "mixed_feat_bulk_over_filter_view"]
     for s in need:
         if ck.strata.get(s, 0) < 3:
             raise core.Infra(f"generator stratum {s} under-represented: {ck.strata.get(s, 0)}")
+    for s in ("mixed_feat_bulk_rows_1", "mixed_feat_single_over_filter_view"):      # sparse in the quick tier (80 workbooks)
+        if ck.strata.get(s, 0) < 1:
+            raise core.Infra(f"generator stratum {s} empty")
 
 
 def replay(path):
